@@ -442,10 +442,12 @@ def finish(ctx, ob, meta):
         violations += 1
         lines.append(f"VIOLATION property={pid} replay={path} no-failing-input-found")
     seen = set()
+    static = {f.get("id"): f for f in ctx.findings}
     for f in known:
         if f["known"] not in seen:
             seen.add(f["known"])
-            lines.append(f"KNOWN-FINDING: property={pid} {f['known']}: {f['what']}")
+            desc = static.get(f["known"], {}).get("what", f["what"])
+            lines.append(f"KNOWN-FINDING: property={pid} {f['known']} at {f['site']}: {desc[:400]}")
     n_ob = len(ob.get("theorems", []))
     discharged = sum(1 for t, ax in ob.get("axioms", {}).items()
                      if ax is not None and set(ax) <= ALLOWED_AXIOMS) if ob["build_ok"] and not ob.get("scan_hits") else 0
